@@ -4,6 +4,7 @@
 From Coq Require Import List ZArith Bool String.
 From V Require Import Gen.Params Lib.Hex Lib.Corr.
 From V Require Export ConnIDs.Model ConnIDs.Routing ConnIDs.GenRoute.
+From V Require Export ConnIDs.LimitSel.
 Import ListNotations.
 Open Scope Z_scope.
 
@@ -30,12 +31,14 @@ Inductive robs := RO (flag : bool) (kind ref sent : Z) (routes : list (cid * Z *
 Inductive grobs := GRO (g : gobs) (table : list (cid * Z * Z)).
 
 Inductive case :=
+| LimitCase (src : limit_source) (advlimit accepted : Z)   (* real client constructor: manager's advertisedLimit, frames accepted before the first LIMIT error *)
 | GenRouteCase (initial : cid) (clientDest : option cid) (len0 : bool) (ops : list (grop * grobs))
 | MgrCase (initial : cid) (ops : list (mop * mobs))
 | GenCase (initial : cid) (clientDest : option cid) (len0 : bool) (ops : list (gop * gobs))
 | RouteCase (ops : list (rop * robs)).
 
 Inductive obs :=
+| LimitObs (advlimit accepted : Z)
 | GenRouteObs (l : list grobs)
 | MgrObs (l : list mobs)
 | GenObs (l : list gobs)
@@ -99,6 +102,7 @@ Fixpoint gr_trace (ops : list grop) (s : gen * rt) : list grobs :=
 
 Definition model_obs (c : case) : obs :=
   match c with
+  | LimitCase src _ _ => LimitObs (m_advlimit (limit_state src)) (accepted_frames 40 1 (limit_state src))
   | GenRouteCase i cd l0 ops => GenRouteObs (gr_trace (map fst ops) (gr_init i cd l0))
   | MgrCase i ops => MgrObs (mgr_trace (map fst ops) (mgr_init i))
   | GenCase i cd l0 ops => GenObs (gen_trace (map fst ops) (gen_init i cd l0))
@@ -194,6 +198,7 @@ Definition grobs_eqb (a b : grobs) : bool :=
 
 Definition check_case (c : case) : bool :=
   match c, model_obs c with
+  | LimitCase _ a n, LimitObs a' n' => (a =? a') && (n =? n')
   | GenRouteCase _ _ _ ops, GenRouteObs l => list_eqb grobs_eqb (map snd ops) l
   | MgrCase _ ops, MgrObs l => list_eqb mobs_eqb (map snd ops) l
   | GenCase _ _ _ ops, GenObs l => list_eqb gobs_eqb (map snd ops) l
